@@ -3,6 +3,7 @@ from __future__ import annotations
 
 import ast
 
+from pv.q import text as qtext
 from pv.model import walk_no_nested
 
 CTX = "passlib.context"
@@ -20,7 +21,7 @@ def fact_iter_config_by_key(model, rep, R):
 
 def fact_expand_settings(model, rep, R):
     fn = model.func(CTX, "_CryptConfig.expand_settings")
-    t = ast.unparse(fn)
+    t = qtext(fn)
     ok = "setting_kwds = handler.setting_kwds" in t and "setting_kwds += uh.HasRounds.using_rounds_kwds" in t and t.rstrip().endswith("return setting_kwds")
     rep.check(ok, R, f"{CTX}:_CryptConfig.expand_settings", t.split("\n", 1)[-1].replace("\n", " ; ")[:160],
               "the allowed settings of a handler are its own setting_kwds, *extended* by the rounds keywords when it has rounds",
